@@ -20,7 +20,12 @@ import (
 	"verif/internal/src"
 )
 
-func TestMain(m *testing.M) { ev.Main(m, "C16", "exploration") }
+func TestMain(m *testing.M) {
+	// the date-time of the header is defined in UTC; the process runs in a zone that is neither UTC nor a whole
+	// hour away from it, so that any use of the local zone shows
+	time.Local = time.FixedZone("verif+10:30", 10*3600+30*60)
+	ev.Main(m, "C16", "exploration")
+}
 
 type Case struct {
 	Header string `json:"header_hex"` // 128 bytes
